@@ -111,6 +111,7 @@ impl SocketBackend for RepSocketBackend {
 
     fn shutdown(&self) {
         self.peers.clear_sync();
+        self.fair_queue_inner.lock().clear();
     }
 
     fn monitor(&self) -> &Mutex<Option<mpsc::Sender<SocketEvent>>> {
